@@ -434,8 +434,45 @@ VERUS_LIFTS["glr_disamb_block"] = glr_disamb_block_range
 # LRTable::calculate_reductions -- for every lookahead of a reducing item, the cell of that terminal receives the
 # reduction (directly if empty, through conflict resolution otherwise).  Contains the conflict_block range.
 
-REDUCE_DECLARED = ["item", "prod", "self", "state"]
-REDUCE_START = "let new_reduce = Action::Reduce(item.prod, item.position);"
+REDUCE_DECLARED = ["aug_symbols", "item", "self", "state"]
+ITEM_LOOP_HEAD = "foriteminstate.items.iter().filter(|x|x.is_reducing()){"
+
+
+def loop_exits_to_returns(src, lo, hi):
+    """text of the token range [lo, hi) -- a whole loop body -- with the `continue` / `break` of THAT loop (the ones not nested in
+    a loop inside the range) replaced by `return false` / `return true`: the lifted function's result says whether the iteration
+    left the loop early.  Returns (text, number of continues replaced, number of breaks replaced)."""
+    t = src.toks
+    inner = []  # token ranges of the bodies of loops nested in the range
+    i = lo
+    while i < hi:
+        if t[i].kind == "ident" and t[i].text in ("for", "while", "loop") and t[src.prev_sig(i)].text != ".":
+            j, depth = i + 1, 0
+            while j < hi:
+                if t[j].text in ("(", "["):
+                    depth += 1
+                elif t[j].text in (")", "]"):
+                    depth -= 1
+                elif t[j].text == "{" and depth == 0:
+                    break
+                j += 1
+            if j < hi:
+                inner.append((j, src.match(j)))
+        i += 1
+    out, nc, nb = [], 0, 0
+    for i in range(lo, hi):
+        tok = t[i]
+        nested = any(a < i < b for a, b in inner)
+        if tok.kind == "ident" and tok.text in ("continue", "break") and not nested:
+            nxt = t[src.sig(i + 1)].text
+            if nxt not in (";", "}"):
+                raise ExtractError("reduce block: labelled or valued `%s` in the item loop body" % tok.text)
+            out.append("return false" if tok.text == "continue" else "return true")
+            nc += tok.text == "continue"
+            nb += tok.text == "break"
+        else:
+            out.append(tok.text)
+    return "".join(out), nc, nb
 
 
 def reduce_block_range(repo):
@@ -444,53 +481,45 @@ def reduce_block_range(repo):
     imp = src.find_impl(r"^impl < 'g , 's > LRTable < 'g , 's >", has="calculate_reductions")
     fn = imp.child("fn", "calculate_reductions")
     t = src.toks
-    body_s = t[fn.body_open].e
-    body = src.text[body_s:t[fn.body_close].s]
-    if body.count(REDUCE_START) != 1:
-        raise ExtractError("reduce block: anchor `%s` not found exactly once in calculate_reductions" % REDUCE_START)
-    lo_off = body_s + body.index(REDUCE_START)
-    lo = next(i for i in range(fn.body_open, fn.body_close) if t[i].s == lo_off)
-    # the range runs to the end of the item loop's body: the enclosing `{` of lo
-    depth = 0
-    k = lo
-    while True:
-        k -= 1
-        if t[k].text in rsx.CLOSE:
-            depth += 1
-        elif t[k].text in rsx.OPEN:
-            if depth == 0:
-                break
-            depth -= 1
+    # the range is the WHOLE body of the item loop `for item in state.items.iter().filter(|x| x.is_reducing()) { .. }`
+    sig_idx = [i for i in range(fn.body_open + 1, fn.body_close) if t[i].kind not in ("ws", "comment")]
+    flat = ""
+    ends = []  # ends[k] = token index whose text ends at flat offset k
+    for i in sig_idx:
+        flat += t[i].text
+        ends.append((len(flat), i))
+    if flat.count(ITEM_LOOP_HEAD) != 1:
+        raise ExtractError("reduce block: expected exactly one item loop `for item in state.items.iter().filter(|x| x.is_reducing()) {` in calculate_reductions")
+    off = flat.index(ITEM_LOOP_HEAD) + len(ITEM_LOOP_HEAD)
+    k = next(i for (e, i) in ends if e == off)  # the `{` of the item loop body
     if t[k].text != "{":
-        raise ExtractError("reduce block: unexpected enclosing bracket")
-    hi = src.match(k)  # the closing brace of the item loop body (exclusive end of the range)
-    # pin the loop headers and the binding the free variables come from, and what lies between them and the range
-    head = "".join(x.text for x in t[fn.body_open + 1:lo] if x.kind not in ("ws", "comment"))
-    for need in ("forstatein&mutself.states{", "foriteminstate.items.iter().filter(|x|x.is_reducing()){", "letprod=&self.grammar.productions[item.prod];"):
-        if head.count(need) != 1:
-            raise ExtractError("reduce block: expected exactly one `%s` in front of the range" % need)
-    if not head.endswith("continue;}"):
-        raise ExtractError("reduce block: the statement in front of the range is no longer the augmented-production `if .. { .. continue; }`: %r" % head[-80:])
+        raise ExtractError("reduce block: unexpected token at the item loop body")
+    hi = src.match(k)
+    lo = src.sig(k + 1)
+    head = flat[:off]
+    if head.count("forstatein&mutself.states{") != 1 or not head.endswith("forstatein&mutself.states{" + ITEM_LOOP_HEAD):
+        raise ExtractError("reduce block: the item loop is no longer the first statement of `for state in &mut self.states {`: %r" % head[-120:])
     if "for" not in [x.text for x in t[lo:hi] if x.kind == "ident"]:
         raise ExtractError("reduce block: no loop over the lookaheads inside the range")
-    block_text = src.text[t[lo].s:t[hi].s]
+    block_text, n_cont, n_brk = loop_exits_to_returns(src, lo, hi)
     outside = bound_names_outside(src, fn, lo, hi)
     used = set(idents(src, lo, hi))
     inside = bound_names_inside(src, lo, hi)
     free = sorted(((outside & used) - inside) | ({"self"} if "self" in used else set()))
     if free != REDUCE_DECLARED:
         raise ExtractError(f"reduce block: free variables changed: now {free}, declared {REDUCE_DECLARED}")
-    sha = hashlib.sha256(block_text.encode()).hexdigest()[:16]
+    sha = hashlib.sha256(src.text[t[lo].s:t[hi].s].encode()).hexdigest()[:16]
     a, z = src.line_of(t[lo].s), src.line_of(t[hi].s)
     meta = {"lift": "reduce_block", "file": rel, "lines": [a, z], "sha256_16": sha, "free_variables": REDUCE_DECLARED,
-            "note": "the statements of the item loop of calculate_reductions from `let new_reduce = ..` to the end of the loop body (whatever lies between that "
-                    "binding and the loop over the lookaheads is inside the range).  `state` is the loop variable of `for state in &mut self.states` (a `&mut LRState`), "
-                    "`item` the loop variable of `for item in state.items.iter().filter(|x| x.is_reducing())` (a `&LRItem` borrowed from state.items while state.actions is "
-                    "written: disjoint fields in the source, separate parameters here), `prod` is `&self.grammar.productions[item.prod]` (pinned: a change is exit 2).  "
-                    "The range contains the conflict_block range."}
+            "loop_exits_rewritten": {"continue -> return false": int(n_cont), "break -> return true": int(n_brk)},
+            "note": "the WHOLE body of the item loop `for item in state.items.iter().filter(|x| x.is_reducing()) { .. }` of calculate_reductions, verbatim except that "
+                    "the `continue` / `break` statements of that loop (not those of loops nested in the range) become `return false` / `return true` and `false` is the "
+                    "function's tail: the result says whether the iteration left the item loop early.  `state` is the loop variable of `for state in &mut self.states` "
+                    "(a `&mut LRState`), `item` the loop variable of the item loop (a `&LRItem` borrowed from state.items while state.actions is written: disjoint fields "
+                    "in the source, separate parameters here), `aug_symbols` the vector built in front of the loops.  The range contains the conflict_block range."}
     header = ("impl<'g, 's> LRTable<'g, 's> {\n    fn reduce_block(\n        &self,\n        state: &mut LRState<'g>,\n        item: &LRItem,\n"
-              "        prod: &Production,\n    ) {\n                ")
-    return header + block_text + "\n    }\n}\n", meta
+              "        aug_symbols: &Vec<SymbolIndex>,\n    ) -> bool {\n                ")
+    return header + block_text + "\n                false\n    }\n}\n", meta
 
 
 VERUS_LIFTS["reduce_block"] = reduce_block_range
